@@ -14,6 +14,8 @@ CLAIMED = {
                 ref='DESIGN.md section 6 C06'),
     'C09': dict(text='Every eval_number node on every Integer/Float operand-variant combination with arbitrary payloads: z3 (bit-vectors + FP, Int for exact powers) decides exact Integer results, the float fallback and correct rounding. Assumes the contract of Number::from, which C18 establishes.',
                 ref='DESIGN.md section 6 C09'),
+    'C11': dict(text='The aggregate arms of ast::eval (eval_i64, eval_f64, eval_number) executed from MIR on argument vectors of 1..3 (thorough 4) arbitrary values and with a failing argument in each position; z3 compares with the order-independent definition. gcd/lcm: operands bounded (see evidence), compared with an unrolled reference Euclid.',
+                ref='DESIGN.md section 6 C11'),
     'C18': dict(text='Both From impls of Number executed from MIR on one fully symbolic argument: z3 decides the property for all 2^64 doubles and all i64 (no bound on the argument).',
                 ref='DESIGN.md section 6 C18'),
 }
